@@ -965,6 +965,19 @@ func (w *world) opUploadBadName() string {
 	w.logf("upload-by-name /%s -> %s err=%v", name, digestString(d), err)
 	if !errors.Is(err, want) || d != digest.BadDigest || cas.puts != 0 {
 		w.violate("status-differs op=upload-by-name expected="+want.Error(), fmt.Sprintf("got digest %s err %v, %d Put calls", digestString(d), err, cas.puts))
+		return "stat"
+	}
+	// Entering something that is not a directory.
+	if _, err := w.uploadDirs[0].EnterUploadableDirectory(comp("nonexistent")); !errors.Is(err, syscall.ENOENT) {
+		w.violate("status-differs op=enter-directory expected=ENOENT", fmt.Sprint(err))
+	}
+	for _, n := range names {
+		if _, ok := w.dirs[0].entries[n]; ok {
+			if _, err := w.uploadDirs[0].EnterUploadableDirectory(comp(n)); !errors.Is(err, syscall.ENOTDIR) {
+				w.violate("status-differs op=enter-directory expected=ENOTDIR", fmt.Sprint(err))
+			}
+			break
+		}
 	}
 	return "stat"
 }
@@ -1539,6 +1552,15 @@ func (w *world) drain() {
 	}
 	if w.isAborted() {
 		return
+	}
+	if w.nfs != nil {
+		// Malformed and unknown handles.
+		if _, s := w.nfs.ResolveHandle(bytes.NewReader([]byte{1, 2, 3})); s != virtual.StatusErrBadHandle {
+			w.violate("nfs-short-handle-not-rejected", fmt.Sprint(s))
+		}
+		if _, s := w.nfs.ResolveHandle(bytes.NewReader([]byte{0xde, 0xad, 0xbe, 0xef, 1, 2, 3, 4})); s != virtual.StatusErrStale {
+			w.violate("nfs-unknown-handle-not-stale", fmt.Sprint(s))
+		}
 	}
 	for _, f := range w.pool.all() {
 		if cc := f.closeCount.Load(); cc != 1 {
